@@ -77,6 +77,35 @@ def run(ctx):
             os.unlink(base + "-0.prof")
         except OSError:
             pass
+    # ---- concurrent creation of the streams: NS threads call parsec_profiling_stream_init at the same instant (barrier),
+    #      trace a few events each; repeated (a lost or duplicated stream shows in the read-back)
+    ns_race = 32
+    rounds = 40 if ctx.quick else 600
+    bp = os.path.join(ctx.scratch, "race.txt")
+    with open(bp, "w") as f:
+        f.write("%d %s\n" % (ns_race, " ".join(str(x) for x in INFOLEN)))
+        for i in range(3):
+            for st in range(1, ns_race + 1):
+                f.write("%d %d %d %d %d %d\n" % (st, 2 + (st + i) % 12, 1 if (st + i) % 3 else 0, 0, 100 * i + st, 1))
+    race_exs = []
+    for k in range(rounds):
+        tr = os.path.join(ctx.scratch, "race%d.ndjson" % k)
+        base = os.path.join(ctx.scratch, "rdbp%d" % k)
+        rc, out, err = ctx.run_cmd([exe, bp, base, tr], timeout=300, env={"VERIF_PROF_RACE": "1"})
+        ex = tracecheck.read_ndjson(tr) if os.path.exists(tr) else []
+        if rc != 0:
+            ex.append({"e": "Timeout" if rc == "timeout" else "Crash", "rc": str(rc), "stderr": err[-300:]})
+        race_exs.append(ex)
+        for p in (base + "-0.prof", tr):
+            try:
+                os.unlink(p)
+            except OSError:
+                pass
+    ctx.extra["creation_race_runs"] = rounds
+    ctx.evaluations += rounds
+    dist, mult = tracecheck.dedupe(race_exs, strip=())
+    ctx.extra["creation_race_distinct_traces"] = len(dist)
+    exs.extend(dist)
     ctx.sample({"streams": behs[0][0], "first_steps": behs[0][1][:3], "steps": len(behs[0][1]),
                 "first_logged": exs[0][:2], "last_logged": exs[0][-2:]})
     for f in ctx.validate("Prof", "LogTrace", "LogTrace.cfg", exs, batch=4, timeout=1500):
